@@ -70,6 +70,7 @@ type c26change struct {
 	kind     string
 	expr     b6.Expression
 	ids      []b6.FeatureID // IDs a successful application modifies (by construction); nil = not asserted
+	mustFail bool           // applying the change fails by construction (a tag is added to a feature that does not exist)
 	mentions []b6.FeatureID // extra IDs to probe
 }
 
@@ -150,7 +151,7 @@ func c26gen(r *core.R, c *core.Ctx, present []b6.FeatureID, depth int) c26change
 	case 1: // add-tag, absent feature
 		id := core.Pick(r, absentIDs)
 		c.Count("gen_add_tag_absent")
-		return c26change{kind: "add-tag:absent", expr: xCall("add-tag", xID(id), xTag(core.Pick(r, keys), uniq())), mentions: []b6.FeatureID{id}}
+		return c26change{kind: "add-tag:absent", expr: xCall("add-tag", xID(id), xTag(core.Pick(r, keys), uniq())), mentions: []b6.FeatureID{id}, mustFail: true}
 	case 2: // remove-tag, present feature (key present or not)
 		id := core.Pick(r, present)
 		return c26change{kind: "remove-tag:present", expr: xCall("remove-tag", xID(id), xStr(core.Pick(r, keys))), ids: []b6.FeatureID{id}}
@@ -177,6 +178,7 @@ func c26gen(r *core.R, c *core.Ctx, present []b6.FeatureID, depth int) c26change
 			ch.ids = ids
 		} else {
 			ch.kind = "add-tags:with-absent"
+			ch.mustFail = true
 		}
 		return ch
 	case 5: // remove-tags
@@ -321,7 +323,7 @@ func init() {
 		Assumptions: []string{"ingest.Change.Apply on the twin world is the reference for whether applying fails and for the world afterwards",
 			"api.Evaluate on the twin yields the same change value as the evaluation inside the code under test"},
 		Quick: 3000, Thorough: 600000,
-		Required: []string{"twin_failed", "twin_ok", "path_grpc", "path_evaluator", "failed_and_reported", "ok_and_ids_checked", "merge_failed"},
+		Required: []string{"must_fail_by_construction", "twin_failed", "twin_ok", "path_grpc", "path_evaluator", "failed_and_reported", "ok_and_ids_checked", "merge_failed"},
 		Run: func(c *core.Ctx) {
 			r := c.R
 			worldKind := r.Intn(3)
@@ -477,6 +479,17 @@ func init() {
 			}
 			witness["got_error"] = fmt.Sprint(gotErr)
 			// ---- compare
+			if ch.mustFail {
+				// independent of the twin (which runs the same Apply code): the change names a feature that does not exist
+				c.Count("must_fail_by_construction")
+				if !twinFailed {
+					c.Violate("apply:succeeded-on-absent-feature:"+ch.kind, witness, "%s: applying the change directly succeeded although it adds a tag to a feature that does not exist", desc)
+				}
+				if gotErr == nil {
+					c.Violate(pathName+":failed-change-reported-as-success:by-construction", witness,
+						"%s: the change adds a tag to a feature that does not exist, but %s returned no error (ids %s)", desc, pathName, c26idSet(gotKeys))
+				}
+			}
 			switch {
 			case twinFailed && gotErr == nil:
 				c.Violate(pathName+":failed-change-reported-as-success", witness,
